@@ -485,6 +485,15 @@ EXTRA_BASES = [
 ]
 SPECIAL_PAIRS = [
     ("non-comparable-property", R("VNonCmp", {"v": 1, "note": "n1"}), R("VNonCmp", {"v": 1, "note": "other"})),
+    # text that is not encodable as strict UTF-8 (a lone surrogate: JS / JSON string literals, surrogateescape-decoded
+    # file names) next to its spelled-out escapes: if such nodes can be built at all, they are different content
+    ("lone-surrogate-vs-its-escape", R("VStr2", {"a": "\ud83d", "b": ""}), R("VStr2", {"a": "\\ud83d", "b": ""})),
+    ("lone-surrogate-vs-replacement-character", R("VStr2", {"a": "x\udc80", "b": ""}), R("VStr2", {"a": "x\ufffd", "b": ""})),
+    ("lone-surrogate-vs-question-mark", R("VStr2", {"a": "\udcff", "b": ""}), R("VStr2", {"a": "?", "b": ""})),
+    ("lone-surrogate-vs-nothing", R("VStr2", {"a": "a\ud800b", "b": ""}), R("VStr2", {"a": "ab", "b": ""})),
+    ("two-lone-surrogates", R("VStr2", {"a": "\ud800", "b": ""}), R("VStr2", {"a": "\ud801", "b": ""})),
+    ("lone-surrogate-vs-xml-escape", R("VStr2", {"a": "\ud83d", "b": ""}), R("VStr2", {"a": "&#55357;", "b": ""})),
+    ("lone-surrogate-vs-name-escape", R("VStr2", {"a": "\ud83d", "b": ""}), R("VStr2", {"a": "\\N{U+D83D}", "b": ""})),
     ("long-common-prefix", R("VStr2", {"a": "p" * 64 + "A" * 16, "b": ""}), R("VStr2", {"a": "p" * 64 + "B" * 16, "b": ""})),
     ("tuple-order", R("VRich", {"t": (1, 2)}), R("VRich", {"t": (2, 1)})),
     ("int-vs-bool-in-optional", R("VRich", {"n": 1}), R("VRich", {"n": True})),
@@ -566,7 +575,12 @@ def special_harness(e):
     reset_all()
     k = e.choice(len(SPECIAL_PAIRS), "pair")
     label, ra, rb = SPECIAL_PAIRS[k]
-    x, y = build(ra), build(rb)
+    try:
+        x, y = build(ra), build(rb)
+    except UnicodeEncodeError:
+        # the library refuses text it cannot encode: nothing to compare (the statement is about nodes)
+        e.count("unencodable_text_refused")
+        e.assume(False)
     _assert_pair(e, x, y, ra, rb, {"kind": label, "left": describe(ra), "right": describe(rb)})
     e.distinct(k)
     return {"pair": label}
